@@ -370,10 +370,13 @@ def eval_poly(ctx, case):
     try:
         if sphero:
             shape = coxeter.shapes.ConvexSpheropolygon(vin, r)
-            poly = shape.polygon
         else:
             shape = coxeter.shapes.ConvexPolygon(vin)
-            poly = shape
+        # a third of the cases: the same shape reached through a history (scaled, shifted copy; every query read
+        # once, distance_to_surface included; size / centroid / radius setters) - see harness/history.py
+        import history
+        shape, _how = history.maybe_via_history(shape, history.rng_for([case["input"], case["angles"]]), 0.33, ctx)
+        poly = shape.polygon if sphero else shape
         with np.errstate(all="ignore"):
             got = np.array(shape.distance_to_surface(angles.copy()), dtype=float)
     except Exception as e:
